@@ -229,7 +229,11 @@ IsIdle(K) ==
   IN /\ L.queue = <<>>
      /\ L.waiting = <<>>
      /\ L.lpt = 0
-     /\ (L.os.timeout = 0 \/ L.os.keys = <<>>)
+     \* src: mod.rs is_idle (fix 594c697): oneshot.keys.is_empty(); Bug = "idle_os_timeout0" = before the fix
+     \* (`oneshot.timeout == 0 || keys.is_empty()`: with rapid-event-delay 0 the end of a one-shot was slept on)
+     /\ (IF Bug = "idle_os_timeout0" THEN (L.os.timeout = 0 \/ L.os.keys = <<>>) ELSE L.os.keys = <<>>)
+     \* src: mod.rs is_idle (fix 743d8bc): oneshot.pause_input_processing_ticks == 0; Bug = "idle_ignores_pause"
+     /\ (Bug = "idle_ignores_pause" \/ L.os.pticks = 0)
      /\ L.seqs = <<>>
      /\ L.tde = <<>>
      /\ L.aq = <<>>
@@ -240,6 +244,8 @@ IsIdle(K) ==
      /\ (Bug = "idle_ignores_prev" \/ \A i \in DOMAIN K.prev : Contains(Keycodes(L), K.prev[i]))
      /\ K.vpr = <<>>
      /\ K.dyn.rep = <<>>                       \* dynamic_macro_replay_state.is_none()
+     \* src: mod.rs is_idle (fix db302df): dynamic_macro_record_state.is_none(); Bug = "idle_ignores_rec"
+     /\ (Bug = "idle_ignores_rec" \/ K.dyn.rec = <<>>)
      /\ (~SqOn \/ ~K.sq.act)                   \* sequence_state.is_inactive()
      /\ (~HasChv2 \/ CvIsIdle(L.chv2))         \* chords_v2.map(is_idle_chv2).unwrap_or(true)
      /\ ~\E i \in DOMAIN L.states :
@@ -292,9 +298,10 @@ Fut(k) == [k EXCEPT !.out = <<>>, !.L.hk = FutCapAges(@), !.L.hi = FutCapAges(@)
 \* is "K ticks are unobservable" for every K
 IdleTickIsStutter(k) ==
   CanBlockUpdate(k).cb => LET s == StepTick(k) IN s.K.out = <<>> /\ Fut(s.K) = Fut(k)
-\* the may-block states covered by the recorded findings of C07 (known_findings.json): the rapid-event pause is still
-\* running; a one-shot end is pending with timeout 0 (src: mod.rs is_idle `oneshot.timeout == 0 || keys.is_empty()`)
-IdleTickKnownDefect(k) == k.L.os.pticks > 0 \/ (k.L.os.timeout = 0 /\ k.L.os.keys # <<>>)
+\* the may-block states covered by a recorded, unrepaired finding of C07 (known_findings.json) that L1 models: none
+\* any more (the rapid-event pause, the one-shot end with timeout 0 and the recording state were repaired in
+\* 743d8bc / 594c697 / db302df and are conjuncts of IsIdle now; the zippychord reset is outside L1)
+IdleTickKnownDefect(k) == FALSE
 \* ----- projection on what the harness can observe without hooks (binding B) ---------------
 ProjSt(s) ==
   CASE s.t = "nk" -> <<"nk", s.a, s.x, s.y, s.f>>
